@@ -226,7 +226,8 @@ def ClassInfo.toExc (c : ClassInfo) (detail comment : Option Text) (headers : Li
 
 structure Resp where
   form : Form
-  contentType : Text
+  contentType : Text            -- self.content_type after prepare (the Content-Type header up to the first `;`)
+  contentTypeHeader : Text      -- the whole Content-Type header after prepare
   body : Text
 deriving Repr, DecidableEq
 
@@ -289,6 +290,48 @@ def contentTypeOf (f : Form) : Text :=
   | .json => mimeJson
   | .plain => mimePlain
 
+/-! ### the response's Content-Type header (`webob.headers.ResponseHeaders`, `Response.content_type`)
+
+The caller may have put any Content-Type on the exception before `prepare` runs (`content_type=` / `charset=` keyword,
+a `Content-Type` entry in `headers=`, `exc.content_type = …`, `del exc.content_type`): it is part of `Exc.headers`. -/
+
+def headerNameEq (a b : Text) : Bool := a.map asciiLower == b.map asciiLower
+
+def ctName : Text := ['C', 'o', 'n', 't', 'e', 'n', 't', '-', 'T', 'y', 'p', 'e']
+
+/-- `headers[name] = v`: every entry of that name (case-insensitive) is dropped, the new one appended -/
+def setHeader (name v : Text) (hs : List (Text × Text)) : List (Text × Text) :=
+  hs.filter (fun kv => !headerNameEq kv.1 name) ++ [(name, v)]
+
+/-- `headers.get(name)`: the last entry of that name -/
+def getHeader (name : Text) : List (Text × Text) → Option Text
+  | [] => none
+  | (k, v) :: rest =>
+    match getHeader name rest with
+    | some w => some w
+    | none => if headerNameEq k name then some v else none
+
+/-- what `self.content_type = '<mime>'` (and, for JSON, `self.charset = None`) leaves in the header: the setter
+replaces the whole value and adds the default charset `UTF-8` to `text/*` types -/
+def contentTypeHeaderOf (f : Form) : Text :=
+  match f with
+  | .html => mimeHtml ++ [';', ' ', 'c', 'h', 'a', 'r', 's', 'e', 't', '=', 'U', 'T', 'F', '-', '8']
+  | .json => mimeJson
+  | .plain => mimePlain ++ [';', ' ', 'c', 'h', 'a', 'r', 's', 'e', 't', '=', 'U', 'T', 'F', '-', '8']
+
+/-- `Response.content_type` getter: `header.split(';', 1)[0]` -/
+def mimeOfHeader (h : Text) : Text := h.takeWhile (fun c => c != ';')
+
+/-- the exception after the branch of the ladder for `f` has assigned `self.content_type` -/
+def Exc.withContentType (e : Exc) (f : Form) : Exc :=
+  { e with headers := setHeader ctName (contentTypeHeaderOf f) e.headers }
+
+/-- `self.content_type` / the header as read back from the response -/
+def Exc.contentTypeHeader (e : Exc) : Text := (getHeader ctName e.headers).getD []
+
+def respOf (f : Form) (e : Exc) (body : Text) : Resp :=
+  ⟨f, mimeOfHeader e.contentTypeHeader, e.contentTypeHeader, body⟩
+
 /-- `page_template.substitute(status=self.status, body=body)` -/
 def pageEnv (status body : Text) (k : Text) : Option Text :=
   if k = ['s', 't', 'a', 't', 'u', 's'] then some status else if k = ['b', 'o', 'd', 'y'] then some body else none
@@ -296,24 +339,25 @@ def pageEnv (status body : Text) (k : Text) : Option Text :=
 /-- `prepare(environ)`: `none` = the response is left alone (`has_body` or `empty_body`).
 `q` = the q-value WebOb gives each offered media type for this request's `Accept` header (0 = not acceptable),
 `offered` = the list passed to `acceptable_offers`. -/
-def prepare (offered : List Text) (e : Exc) (environ : List (Text × Text)) (q : Text → Nat) :
+def prepare (offered : List Text) (e0 : Exc) (environ : List (Text × Text)) (q : Text → Nat) :
     Except Err (Option Resp) :=
-  if e.hasBody || e.emptyBody then .ok none
+  if e0.hasBody || e0.emptyBody then .ok none
   else
     let f := formOf (chooseMatch q offered)
+    let e := e0.withContentType f
     let args := buildArgs f e environ
     match substitute (fun k => lookupLast k args) e.bodyTmpl with
     | .error err => .error err
     | .ok body =>
       match f with
-      | .json => .ok (some ⟨f, contentTypeOf f, jsonBody body e.status e.title⟩)
+      | .json => .ok (some (respOf f e (jsonBody body e.status e.title)))
       | .html =>
         match substitute (pageEnv e.status body) e.htmlTmpl with
         | .error err => .error err
-        | .ok page => .ok (some ⟨f, contentTypeOf f, page⟩)
+        | .ok page => .ok (some (respOf f e page))
       | .plain =>
         match substitute (pageEnv e.status body) e.plainTmpl with
         | .error err => .error err
-        | .ok page => .ok (some ⟨f, contentTypeOf f, page⟩)
+        | .ok page => .ok (some (respOf f e page))
 
 end Pyr.HttpExc
